@@ -185,7 +185,10 @@ func HandleBulkBody(postBody []byte, ctx *fasthttp.RequestCtx, rid uint64, myid 
 			numBytes := len(line)
 			bytesReceived += numBytes
 			// update only if body is less than MAX_RECORD_SIZE
-			if numBytes < sutils.MAX_RECORD_SIZE {
+			if !vtable.IsValidIndexName(indexName) {
+				log.Errorf("HandleBulkBody: invalid index name: %v", indexName)
+				success = false
+			} else if numBytes < sutils.MAX_RECORD_SIZE {
 				processedCount++
 				success = true
 				if strings.Contains(indexName, ".kibana") {
@@ -373,6 +376,10 @@ func ProcessIndexRequestPle(tsNow uint64, indexNameIn string, flush bool,
 			return utils.TeeErrorf("ProcessIndexRequestPle: indexName mismatch; want %v, got %v",
 				indexNameIn, ple.GetIndexName())
 		}
+	}
+
+	if !vtable.IsValidIndexName(indexNameIn) {
+		return utils.TeeErrorf("ProcessIndexRequestPle: invalid index name: %v", indexNameIn)
 	}
 
 	indexNameConverted := AddAndGetRealIndexName(indexNameIn, localIndexMap, myid)
